@@ -724,8 +724,10 @@ static int decrunch_bzip2(HIO_HANDLE *in, void **out, long *outlen)
   }
   if (!i) i = flush_bunzip_outbuf(bd, &output);
 
-  for (j=0; j<THREADS; j++) free(bd->bwdata[j].dbuf);
-  free(bd);
+  if (bd) {
+    for (j=0; j<THREADS; j++) free(bd->bwdata[j].dbuf);
+    free(bd);
+  }
 
   if (i != 0) {
     free(output.buf);
